@@ -23,8 +23,10 @@ Definition ex_d2 : sdef := mkD (CpIncl [2; 3]) (FSet [liga]) (DRanges [(wght, [(
 
 Example ex_font_wf : font_wf ex_font.
 Proof.
-  intros t [<-|[<-|[]]]; apply entries_decodable_wf; try reflexivity;
-    intros i e H; repeat (destruct i as [|i]; [inversion H; subst; cbn; repeat constructor; discriminate|]);
+  intros t [<-|[<-|[]]]; apply entries_decodable_wf; try reflexivity; intros i e H.
+  - do 4 (destruct i as [|i]; [inversion H; subst; cbn; repeat constructor; discriminate|]).
+    destruct i; discriminate.
+  - do 1 (destruct i as [|i]; [inversion H; subst; cbn; repeat constructor; discriminate|]).
     destruct i; discriminate.
 Qed.
 
@@ -73,8 +75,9 @@ Proof. eexists. split; [vm_compute; reflexivity|]. vm_compute. repeat split; ref
 Example wf_needed_refuted : exists e d, entry_intersects e d = true /\ ~ spec_dims e d.
 Proof.
   exists (mkED [] [] [(wght, [])]), (mkD (CpIncl []) (FSet []) DAll). split; [reflexivity|].
-  intros [_ [_ [H|[t [x [[rs [[H|[]] [lo [hi [[] _]]]]] _]]]]]]; [discriminate|].
-  inversion H; subst. Qed.
+  intros [_ [_ [H|[t [x [[rs [Hin Hr]] _]]]]]]; [discriminate|].
+  destruct Hin as [Hin|[]]. inversion Hin; subst. destruct Hr as [lo [hi [[] _]]].
+Qed.
 
 (* "prefers the candidate with the largest intersection" holds for the IFTX scope only among the
    candidates whose uri differs from the IFT scope's choice: here IFTX entry 0 (uri 5, three
